@@ -35,6 +35,7 @@ Theorem C07_agree_partial : forall s c b,
   py_bind s c = Some b ->
   filter_args_model s [] None c = Ok (canon s b).
 Proof. exact agree_partial. Qed.
+Print Assumptions C07_agree_partial.
 
 (* bound methods: Python binds by calling the underlying function (first parameter [selfp]) with the
    instance [sv] prepended; filter_args sees inspect.signature of the bound method, [s] *)
@@ -45,6 +46,7 @@ Theorem C07_agree_partial_method : forall selfp sv s c b,
   py_bind (selfp :: s) (mkCall (sv :: cpos c) (ckw c)) = Some b ->
   filter_args_model s [] (Some (pname selfp, sv)) c = Ok (canon (selfp :: s) b).
 Proof. exact agree_partial_method. Qed.
+Print Assumptions C07_agree_partial_method.
 
 (* the fragment as a property of the signature alone: no positional-only parameter, not both *args and
    keyword-only parameters, no required keyword-only parameter after a defaulted parameter.  For such a
@@ -54,17 +56,20 @@ Theorem C07_agree_partial_sig : forall s, wf_sig s -> sig_in_fragment s = true -
 Proof.
   intros s Hwf Hs c b Hc Hb. exact (agree_partial s c b Hwf Hc (sig_in_fragment_all s c Hs) Hb).
 Qed.
+Print Assumptions C07_agree_partial_sig.
 
 (* the canonical dict loses nothing: a binding has one well-shaped entry per parameter, in order, and two
    bindings of one signature with equal canonical dicts are equal up to the order inside **kwargs --
    so "equal to canon (py_bind ...)" pins down every bound value (used by C02/C06) *)
 Theorem C07_bind_aligned : forall s c b, py_bind s c = Some b -> Forall2 typed s b /\ map fst b = map pname s.
 Proof. intros s c b H. exact (conj (py_bind_typed s c b H) (py_bind_aligned s c b H)). Qed.
+Print Assumptions C07_bind_aligned.
 
 Theorem C07_canon_inj : forall s c1 c2 b1 b2,
   py_bind s c1 = Some b1 -> py_bind s c2 = Some b2 -> canon s b1 = canon s b2 ->
   Forall2 (fun e1 e2 => fst e1 = fst e2 /\ aveq (snd e1) (snd e2)) b1 b2.
 Proof. exact py_bind_canon_inj. Qed.
+Print Assumptions C07_canon_inj.
 
 (* ---------------------------------------------------------------- the ignore list *)
 (* for EVERY signature and call (inside or outside the fragment): ignoring a duplicate-free list of
@@ -74,6 +79,7 @@ Theorem C07_ignore : forall s meth c ign d,
   NoDup ign -> (forall k, In k ign -> In k (map fst d)) ->
   filter_args_model s ign meth c = Ok (filter (fun kv => negb (key_mem (fst kv) ign)) d).
 Proof. exact ignore_removes. Qed.
+Print Assumptions C07_ignore.
 
 (* conversely, whenever a call with an ignore list succeeds, the list was duplicate-free, named existing
    keys only, and the result has exactly the other entries (keys of a result are never repeated) *)
@@ -82,6 +88,7 @@ Theorem C07_ignore_exactly : forall s meth c ign d d',
   NoDup (map fst d) /\ NoDup ign /\ (forall k, In k ign -> In k (map fst d)) /\
   forall k v, In (k, v) d' <-> In (k, v) d /\ ~ In k ign.
 Proof. exact ignore_exactly. Qed.
+Print Assumptions C07_ignore_exactly.
 
 (* an item that is not a key of the result (or is repeated) is rejected with ValueError *)
 Theorem C07_ignore_invalid : forall s meth c ign d,
@@ -89,6 +96,7 @@ Theorem C07_ignore_invalid : forall s meth c ign d,
   ~ (NoDup ign /\ forall k, In k ign -> In k (map fst d)) ->
   filter_args_model s ign meth c = Raise ValueError.
 Proof. exact ignore_invalid. Qed.
+Print Assumptions C07_ignore_invalid.
 
 (* both together: in the fragment, the result with an ignore list is Python's binding minus those names *)
 Theorem C07_agree_ignore_partial : forall s c b ign,
@@ -99,6 +107,7 @@ Proof.
   intros s c b ign Hwf Hc Hf Hb Hnd Hin.
   exact (ignore_removes s None c ign (canon s b) (agree_partial s c b Hwf Hc Hf Hb) Hnd Hin).
 Qed.
+Print Assumptions C07_agree_ignore_partial.
 
 (* ---------------------------------------------------------------- refutations (known findings) *)
 (* [agrees s self c] is the full-strength statement at one signature and call (Proofs/FilterArgsWitness.v) *)
@@ -108,6 +117,7 @@ Theorem C07_agree_refuted_posonly :
   ~ agrees w_posonly_sig None w_posonly_call
   /\ filter_args_model w_posonly_sig [] None w_posonly_call = Ok [(KName 2, VOne 1)].
 Proof. exact (conj (deviates_not_agrees _ _ _ (proj1 posonly_deviates)) (proj2 posonly_deviates)). Qed.
+Print Assumptions C07_agree_refuted_posonly.
 
 (* F2: def f(a=1, b=2, *, c): f(5, c=0) gives b = 1 -- default taken from the merged defaults list *)
 Theorem C07_agree_refuted_default_index :
@@ -115,30 +125,35 @@ Theorem C07_agree_refuted_default_index :
   /\ filter_args_model w_merged_sig [] None w_merged_call
      = Ok [(KName 1, VOne 5); (KName 2, VOne 1); (KName 3, VOne 0)].
 Proof. exact (conj (deviates_not_agrees _ _ _ (proj1 merged_deviates)) (proj2 merged_deviates)). Qed.
+Print Assumptions C07_agree_refuted_default_index.
 
 (* F3: def f(a, *args, b): f(1, 2, 3, b=4) raises ValueError *)
 Theorem C07_agree_refuted_varargs :
   ~ agrees w_varargs_sig None w_varargs_call
   /\ filter_args_model w_varargs_sig [] None w_varargs_call = Raise ValueError.
 Proof. exact (conj (deviates_not_agrees _ _ _ (proj1 varargs_deviates)) (proj2 varargs_deviates)). Qed.
+Print Assumptions C07_agree_refuted_varargs.
 
 (* F2b: def f(a, *, b=1, c): f(0, c=5) raises ValueError *)
 Theorem C07_agree_refuted_kwonly_default :
   ~ agrees w_kwdefault_sig None w_kwdefault_call
   /\ filter_args_model w_kwdefault_sig [] None w_kwdefault_call = Raise ValueError.
 Proof. exact (conj (deviates_not_agrees _ _ _ (proj1 kwdefault_deviates)) (proj2 kwdefault_deviates)). Qed.
+Print Assumptions C07_agree_refuted_kwonly_default.
 
 (* F17: class K: def m(self, /, **kw): K().m(self=3) gives {'self': 3, '**': {}} *)
 Theorem C07_agree_refuted_method_self :
   ~ agrees w_self_sig (Some (w_self_param, 999)) w_self_call
   /\ filter_args_model w_self_sig [] (Some (19, 999)) w_self_call = Ok [(KName 19, VOne 3); (KStarStar, VDict [])].
 Proof. exact (conj (deviates_not_agrees _ _ _ (proj1 self_deviates)) (proj2 self_deviates)). Qed.
+Print Assumptions C07_agree_refuted_method_self.
 
 (* hence the unrestricted statement is false of the current code *)
 Theorem C07_agree_refuted :
   ~ (forall s c b, wf_sig s -> wf_call c -> py_bind s c = Some b ->
      filter_args_model s [] None c = Ok (canon s b)).
 Proof. exact full_statement_false. Qed.
+Print Assumptions C07_agree_refuted.
 
 (* ---------------------------------------------------------------- non-vacuity *)
 (* def f(a, b=7, *args, **kw): f(0, 1, 2, 3, z=5, y=6): inside the fragment, all four kinds of entry;
@@ -153,6 +168,7 @@ Example C07_example_function :
   filter_args_model s [KName 2; KStar] None c = Ok [(KName 1, VOne 0); (KStarStar, VDict [(25, 6); (26, 5)])] /\
   filter_args_model s [KName 3] None c = Raise ValueError.
 Proof. repeat split; vm_compute; reflexivity. Qed.
+Print Assumptions C07_example_function.
 
 (* def f(x, *, y, z=3): f(0, y=1): keyword-only parameters with a default looked up from the end *)
 Example C07_example_kwonly :
@@ -162,6 +178,7 @@ Example C07_example_kwonly :
   py_bind s c = Some [(1, VOne 0); (2, VOne 1); (3, VOne 3)] /\
   filter_args_model s [] None c = Ok [(KName 1, VOne 0); (KName 2, VOne 1); (KName 3, VOne 3)].
 Proof. repeat split; vm_compute; reflexivity. Qed.
+Print Assumptions C07_example_kwonly.
 
 (* a signature outside the signature-level fragment, and a call to it that is still inside the per-call one:
    def f(a, *args, b): f(1, b=4) *)
@@ -171,6 +188,7 @@ Example C07_example_percall :
   filter_args_model w_varargs_sig [] None (mkCall [1] [(2, 4)])
     = Ok [(KName 1, VOne 1); (KName 2, VOne 4); (KStar, VTuple [])].
 Proof. repeat split; vm_compute; reflexivity. Qed.
+Print Assumptions C07_example_percall.
 
 (* class K: def m(self, x, y=2, **kw): K().m(5, w=1): bound method; self=19 x=1 y=2 kw=9 w=23 *)
 Example C07_example_method :
@@ -186,3 +204,4 @@ Example C07_example_method :
 Proof.
   repeat split; try (vm_compute; reflexivity). vm_compute. intros [H | []]. discriminate.
 Qed.
+Print Assumptions C07_example_method.
